@@ -66,8 +66,13 @@ var HFoodUniverse = []string{HR0, HR1, HX, HU}
 func HGenRawDay(E int) Elements {
 	els := NewElements()
 	n := verifChoose("entries", E+1)
+	universe := HFoodUniverse
+	if verifBound("casepair", 0) == 1 {
+		// a name that differs from HX only in letter case (orderings that fold case tie on it)
+		universe = append(append([]string{}, HFoodUniverse...), "X")
+	}
 	for i := 0; i < n; i++ {
-		name := HFoodUniverse[verifChoose("food", len(HFoodUniverse))]
+		name := universe[verifChoose("food", len(universe))]
 		els.Add(name, verifFloat("qty"))
 	}
 	return els
